@@ -20,10 +20,14 @@ def account(v, results, prop_label, types=None, what="kernel output differs from
     for r in results:
         if r["status"] in ("rejected", "skipped"):
             st["rejected"] += 1
-            if r["status"] == "rejected" and not r["id"].startswith(("rnd", "r_", "random")) and "Error: name " in r.get("error", "") or "SyntaxError" in r.get("error", ""):
-                # a hand-written case that does not even build is a harness defect, never a quiet skip
+            if r["status"] == "rejected" and not r["id"].startswith(("rnd", "rnx", "unsupported")) and "mayreject" not in r["id"]:
+                # a hand-written case is meant to be accepted: a rejection is either a harness defect (does not even
+                # build) or FFCx refusing / crashing on input it used to accept
                 v.oblige(False)
-                v.violation(f"harness-case:{r['id']}", f"case {r['id']} does not build: {r.get('error','')[:160]}", {"case": r["id"], "code": r["code"]}, no_input=True)
+                harness = "Error: name " in r.get("error", "") or "SyntaxError" in r.get("error", "")
+                v.violation(f"{'harness-case' if harness else 'rejected-case'}:{r['id']}",
+                            (f"case {r['id']} does not build: " if harness else f"case {r['id']}, accepted on the pinned tree, is rejected: ") + r.get("error", "")[:160],
+                            {"case": r["id"], "code": r["code"]}, no_input=harness)
             continue
         if r["status"] != "ok":
             v.oblige(False)
